@@ -109,7 +109,14 @@ MULTI_HEADERS = [
 ]
 MULTI_BY_NAME = {t[0]: t for t in MULTI_HEADERS}
 
-CONTEXTS = ["alone", "alone-read", "connected", "dangling"]
+CONTEXTS = ["alone", "alone-read", "alone-api", "connected", "dangling"]
+# tags created through the API (never parsed from text, never rendered before
+# the clone is taken): name, value constructor
+API_TAGS = [("ya", lambda: {"a": [1, {"b": 2}]}), ("yb", lambda: [1, "x", [2]]),
+            ("yc", lambda: [1, 2, 3]), ("yd", lambda: [1.5, 2.5]),
+            ("ye", lambda: gfapy.NumericArray([4, 5])), ("yf", lambda: "text"),
+            ("yg", lambda: 7), ("yh", lambda: 2.5),
+            ("yi", lambda: gfapy.ByteArray([1, 2]))]
 
 
 def tagsets(quick):
@@ -139,6 +146,8 @@ def work_items(quick):
         for vl in vlevels:
           if ctx_ == "alone-read" and vl != 0:
             continue  # only differs from "alone" when parsing is lazy
+          if ctx_ == "alone-api" and (ts or t[2].startswith("#")):
+            continue  # the API tags replace the textual tag sets
           items.append({"kind": "line", "template": t[0], "tags": list(ts),
                         "context": ctx_, "vlevel": vl})
   for m in MULTI_HEADERS:
@@ -166,6 +175,14 @@ def build(item):
   tname, ver, _, support = TEMPLATE_BY_NAME[item["template"]]
   text = line_text(tname, item["tags"])
   c = item["context"]
+  if c == "alone-api":
+    l = gfapy.Line(text, version=ver, vlevel=vl)
+    for i, (n, mk) in enumerate(API_TAGS):
+      if i % 2:
+        setattr(l, n, mk())
+      else:
+        l.set(n, mk())
+    return None, [l]
   if c in ("alone", "alone-read"):
     l = gfapy.Line(text, version=ver, vlevel=vl)
     if c == "alone-read":
@@ -462,6 +479,15 @@ def check_item(item):
         _check_item(item, res, depth)
     except HarnessTimeout:
       pass
+    except Skip as e:
+      # the same document was built before for the static clauses; if a
+      # later build no longer shows a line with its input text, an earlier
+      # edit of a clone (or of another line) leaked into it
+      res["violations"].append(mkviolation(
+          "rebuilt-document-differs",
+          {"template": item["template"].split(".")[0], "what": str(e)},
+          {"item": item}, "every fresh build of the same text gives the same "
+          "lines", str(e), ""))
     if not timed_out():
       break
   if timed_out():
@@ -493,6 +519,20 @@ def _check_item(item, res, depth):
     return
   for li, orig in enumerate(lines):
     rc = rclass(orig)
+    if item["context"] == "alone-api":
+      # clone BEFORE the original is rendered, compared or asked for a
+      # datatype (default datatypes of API-created tags are computed lazily)
+      try:
+        early = orig.clone()
+        for pa, pb, tn in purity.shared_mutables(orig, early):
+          f = pa.split("]")[0].split("[")[-1].strip("'") if "[" in pa else pa
+          _viol(res, item, li, "shared-mutable",
+                {"_rc": rc, "field": f, "type": tn, "when": "clone before first rendering"},
+                "no mutable object reachable from both lines",
+                {"path_in_original": pa, "path_in_clone": pb, "type": tn})
+      except Exception as e:
+        _viol(res, item, li, "clone-raises", {"_rc": rc, "what": type(e).__name__},
+              "clone() returns a line", purity.exc_canon(e))
     clone, probs = static_clauses(g, orig, res)
     obs_o = line_obs(orig)
     res["states"].add(h([rc, obs_o]))
@@ -581,9 +621,12 @@ def standalone(item, li, edit=None, side=None):
   else:
     tname, ver, _, support = TEMPLATE_BY_NAME[item["template"]]
     text = line_text(tname, item["tags"])
-    if item["context"] in ("alone", "alone-read"):
+    if item["context"] in ("alone", "alone-read", "alone-api"):
       L.append("orig = gfapy.Line({!r}, version={!r}, vlevel={})".format(
           text, ver, vl))
+      if item["context"] == "alone-api":
+        L.append("# then the tags of gfamc.checks.c19.API_TAGS are set through "
+                 "orig.set(...) / setattr(orig, ...)")
       if item["context"] == "alone-read":
         L.append("[orig.get(f) for f in orig.positional_fieldnames + "
                  "orig.tagnames]")
